@@ -14,7 +14,7 @@ let mnem_name = function
   | Frame.Mand -> "and" | Frame.Msub -> "sub" | Frame.Madd -> "add" | Frame.Mlea -> "lea" | Frame.Mmovaps -> "movaps"
   | Frame.Mmovups -> "movups" | Frame.Mvmovaps -> "vmovaps" | Frame.Mvmovups -> "vmovups" | Frame.Mkmovq -> "kmovq"
   | Frame.Mmovq -> "movq" | Frame.Memms -> "emms" | Frame.Mvzeroupper -> "vzeroupper" | Frame.Mret -> "ret" | Frame.Mbti -> "bti"
-  | Frame.Mstp -> "stp" | Frame.Mstr -> "str" | Frame.Mldp -> "ldp" | Frame.Mldr -> "ldr"
+  | Frame.Mstp -> "stp" | Frame.Mstr -> "str" | Frame.Mldp -> "ldp" | Frame.Mldr -> "ldr" | Frame.Mxchg -> "xchg"
 
 let grp_char g = match Z.to_int (z_of_cz g) with 0 -> "G" | 1 -> "V" | 2 -> "K" | 3 -> "M" | _ -> "?"
 
@@ -40,7 +40,7 @@ let mnem_of_name = function
   | "movaps" -> Some Frame.Mmovaps | "movups" -> Some Frame.Mmovups | "vmovaps" -> Some Frame.Mvmovaps | "vmovups" -> Some Frame.Mvmovups
   | "kmovq" -> Some Frame.Mkmovq | "movq" -> Some Frame.Mmovq | "emms" -> Some Frame.Memms | "vzeroupper" -> Some Frame.Mvzeroupper
   | "ret" -> Some Frame.Mret | "bti" -> Some Frame.Mbti | "stp" -> Some Frame.Mstp | "str" -> Some Frame.Mstr | "ldp" -> Some Frame.Mldp
-  | "ldr" -> Some Frame.Mldr | _ -> None
+  | "ldr" -> Some Frame.Mldr | "xchg" -> Some Frame.Mxchg | _ -> None
 
 let parse_op (t : string) : Frame.operand option =
   let n = String.length t in
@@ -105,7 +105,9 @@ let () =
                       fi_local_size = iz 9; fi_local_align = iz 10; fi_call_size = iz 11; fi_call_align = iz 12;
                       fi_sa_reg = iz 13;
                       (* optional 17th field = 1: tree variant with fixes/C07-a64-sa-register.patch (probed by the check) *)
-                      fi_sa_fix = (Array.length a > 16 && ii 16 = 1) } in
+                      fi_sa_fix = (Array.length a > 16 && ii 16 = 1);
+                      (* optional 19th field = 1: tree with fixes/C07-final-alignment-truthful.patch *)
+                      fi_align_fix = (Array.length a > 18 && ii 18 = 1) } in
            (* optional 18th field = 1: tree with fixes/C07-a64-refuse-unrealisable-frames.patch: such frames are refused by finalize *)
            if Array.length a > 17 && ii 17 = 1 && arch = Frame.A64 && not (Frame.a64_realisable fi) then
              print_endline "F 0 I 0 0 0 0 0 0 0 0 0 0 0 0 0 0 0 0 0 0 L ?3"
@@ -176,6 +178,23 @@ let () =
                                   (zf 17) (zf 18) (zf 19) (zf 20) in
               Printf.printf "E %s %s\n" (s code) (s spb)
             | _ -> print_endline "E -1 0")
+         | _ -> print_endline "BAD")
+      | "G" :: _ ->
+        (* G arch sp0 ra d0..d3 p0..p3 s0..s3 hasfp csize localoff lsize cleanup nargs (sk sv dk dv)* | prolog | arg copies | epilog
+           -> G <code> <detail>   verdict of FrameExec.exec_args_frame on the proven machine *)
+        (match String.split_on_char '|' line with
+         | [hd; pro; asg; epi] ->
+           let f = Array.of_list (List.filter (fun x -> x <> "") (String.split_on_char ' ' (String.trim hd))) in
+           let zf i = cz_of_string f.(i) in
+           let q i = { Frame.q0 = zf i; q1 = zf (i + 1); q2 = zf (i + 2); q3 = zf (i + 3) } in
+           let n = int_of_string f.(21) in
+           let args = List.init n (fun i -> (((zf (22 + 4 * i), zf (23 + 4 * i)), zf (24 + 4 * i)), zf (25 + 4 * i))) in
+           (match parse_insts pro, parse_insts asg, parse_insts epi with
+            | Some p, Some a, Some e ->
+              let (code, det) = Frame.exec_args_frame (arch_of (int_of_string f.(1))) p a e (zf 2) (zf 3) args (q 4) (q 8) (q 12) (f.(16) <> "0")
+                                  (zf 17) (zf 18) (zf 19) (zf 20) in
+              Printf.printf "G %s %s\n" (s code) (s det)
+            | _ -> print_endline "G -1 0")
          | _ -> print_endline "BAD")
       | [] -> ()
       | _ -> print_endline "BAD"
